@@ -23,12 +23,20 @@ class time_limit(object):
 
     def __enter__(self):
         self.old = signal.signal(signal.SIGVTALRM, self._fire)
-        signal.setitimer(signal.ITIMER_VIRTUAL, self.seconds)
+        # nestable: an enclosing limit keeps running (the shorter of the two deadlines is armed)
+        self.outer = signal.getitimer(signal.ITIMER_VIRTUAL)[0]
+        self.t0 = time.process_time()
+        arm = self.seconds if not self.outer else min(self.seconds, self.outer)
+        signal.setitimer(signal.ITIMER_VIRTUAL, arm)
         return self
 
     def __exit__(self, *a):
-        signal.setitimer(signal.ITIMER_VIRTUAL, 0)
-        signal.signal(signal.SIGVTALRM, self.old)
+        if self.outer:
+            left = self.outer - (time.process_time() - self.t0)
+            signal.setitimer(signal.ITIMER_VIRTUAL, left if left > 0.001 else 0.001)
+        else:
+            signal.setitimer(signal.ITIMER_VIRTUAL, 0)
+            signal.signal(signal.SIGVTALRM, self.old)
         return False
 
 
